@@ -62,7 +62,7 @@ type Scenario struct {
 var (
 	// methods[0] stands for "the declared method of the route".
 	methods = []string{"", "GET", "POST", "PUT", "DELETE", "PATCH", "HEAD", "OPTIONS", "CONNECT"}
-	ctypes  = []string{"", "application/json", "application/x-www-form-urlencoded", "text/plain", "application/json; charset=utf-8", "multipart/form-data; boundary=verif"}
+	ctypes  = []string{"", "application/json", "application/x-www-form-urlencoded", "text/plain", "application/json; charset=utf-8", "multipart/form-data; boundary=verif", "text/plain; application/json"}
 	// A JSON value that no handler can decode into its request struct.
 	bodies = [][]byte{nil, []byte(`"verif"`)}
 )
